@@ -179,3 +179,12 @@ Theorem C05_src_block_job_reports_failure :
   x_block_job_arms = [("Ok(0)ifoff+done>=harc.metadata.len()", 0); ("Ok(0)", 1); ("Ok(copied)", 2); ("Err(e)", 1)]%string%N.
 Proof. exact x_block_job_arms_ok. Qed.
 Print Assumptions C05_src_block_job_reports_failure.
+
+(* ---- more glue on this property's path, pinned token for token ---- *)
+From XcpPins Require Import Pin_parblock_queue_file_blocks Pin_operations_copy_file.
+Theorem C05_src_pin_parblock_queue_file_blocks : pin_unchanged name_parblock_queue_file_blocks.
+Proof. exact pin_parblock_queue_file_blocks. Qed.
+Theorem C05_src_pin_operations_copy_file : pin_unchanged name_operations_copy_file.
+Proof. exact pin_operations_copy_file. Qed.
+Print Assumptions C05_src_pin_parblock_queue_file_blocks.
+Print Assumptions C05_src_pin_operations_copy_file.
